@@ -32,6 +32,38 @@ pub enum Op {
     CallKilled,
 }
 
+/// Connector wrapper that notes every `call` not preceded by a `poll_ready` that returned
+/// `Ready(Ok)` (tower's contract; connectors built from `RateLimit`, `ConcurrencyLimit`, `Buffer`
+/// rely on it and panic otherwise).
+#[derive(Clone)]
+struct Strict<S> {
+    inner: S,
+    ready: bool,
+    unready_calls: Arc<std::sync::atomic::AtomicU64>,
+}
+impl<S, R> tower::Service<R> for Strict<S>
+where
+    S: tower::Service<R>,
+{
+    type Response = S::Response;
+    type Error = S::Error;
+    type Future = S::Future;
+    fn poll_ready(&mut self, cx: &mut std::task::Context<'_>) -> std::task::Poll<Result<(), S::Error>> {
+        let r = self.inner.poll_ready(cx);
+        if let std::task::Poll::Ready(Ok(())) = &r {
+            self.ready = true;
+        }
+        r
+    }
+    fn call(&mut self, req: R) -> S::Future {
+        if !self.ready {
+            self.unready_calls.fetch_add(1, std::sync::atomic::Ordering::SeqCst);
+        }
+        self.ready = false;
+        self.inner.call(req)
+    }
+}
+
 struct ConnState {
     outcomes: VecDeque<bool>,
     invocations: u64,
@@ -110,6 +142,8 @@ fn scenario(rng: &mut Rng, ctx: &mut Ctx, lazy: bool, outcomes: Vec<bool>, ops: 
     let seed = rng.u64();
     let pcfg = if rng.bool() { PipeCfg::plain() } else { PipeCfg::gen(rng) };
     let rt = paused_rt();
+    let unready = Arc::new(std::sync::atomic::AtomicU64::new(0));
+    let unready2 = unready.clone();
     let mut states: Vec<String> = Vec::new();
     let ctx_codes: Mutex<Vec<String>> = Mutex::new(Vec::new());
     let res: Result<(), (String, String)> = rt.block_on(async {
@@ -144,6 +178,7 @@ fn scenario(rng: &mut Rng, ctx: &mut Ctx, lazy: bool, outcomes: Vec<bool>, ops: 
                 }
             }
         });
+        let connector = Strict { inner: connector, ready: false, unready_calls: unready.clone() };
         let mut ep = Endpoint::from_static("http://verif.test:50051");
         if opts & 1 != 0 {
             ep = ep.connect_timeout(Duration::from_secs(3));
@@ -372,6 +407,9 @@ fn scenario(rng: &mut Rng, ctx: &mut Ctx, lazy: bool, outcomes: Vec<bool>, ops: 
     drop(rt);
     if let Err((dev, what)) = res {
         ctx.violation(&dev, what);
+    }
+    if unready2.load(std::sync::atomic::Ordering::SeqCst) > 0 {
+        ctx.violation("connector-called-unready", format!("the connector was called {} time(s) without a preceding poll_ready that returned Ready(Ok) (a connector that relies on tower's contract panics there and the channel dies)", unready2.load(std::sync::atomic::Ordering::SeqCst)));
     }
     for s in &states {
         match s.as_str() {
